@@ -34,7 +34,7 @@ def run(rep, idx, tier):
     loops += [L for L in c.t.loops.values() if L.kind == 'range' and c.norm(L.bounds[0]) == ('const', 0) and
               c.norm(L.bounds[1]) == c.parse("len(wb.sel)", env)]
     if len(loops) != 1:
-        rep.bad("C10.1", site, "loop over the select bits", f"expected one loop over wb_bus.sel, found {len(loops)}")
+        rep.unk("C10.1", site, "loop over the select bits", f"expected one loop over wb_bus.sel, found {len(loops)}")
         return
     L = loops[0]
     k = ('idx', L.id)
@@ -46,7 +46,7 @@ def run(rep, idx, tier):
             if fr[0] == 'case' and tuple(c.norm(p) for p in fr[2]) == (k,):
                 sids.add(fr[1])
     if len(sids) != 1:
-        rep.bad("C10.1", site, "Switch over the sequencer", f"expected one Switch whose Cases are the granule index, found {len(sids)}")
+        rep.unk("C10.1", site, "Switch over the sequencer", f"expected one Switch whose Cases are the granule index, found {len(sids)}")
         return
     sid = sids.pop()
     CYC = c.norm(c.t.switches[sid])
